@@ -108,6 +108,11 @@ def verify_target(args):
                                            "log": list(ob.meta.get("log", ()))})
                 continue
             v, info, secs, model = smt.check_one(ax, ob, timeout_ms)
+            if v == "undecided":
+                v2, info2, secs2, model2 = smt.check_one(ax, ob, timeout_ms * 4)       # one retry with a larger budget
+                secs += secs2
+                if v2 != "undecided":
+                    v, info, model = v2, info2 + " (retry, 4x budget)" if v2 == "proved" else info2, model2
             if v != "proved":
                 nfail += 1
             rec = {"oid": ob.oid, "family": fam(ob.oid), "kind": ob.kind, "verdict": v, "info": info,
@@ -139,7 +144,7 @@ def run_property(prop_mod, tier="quick", seed=0):
         r = seed % len(keys)
         keys = keys[r:] + keys[:r]
     results = []
-    with cf.ProcessPoolExecutor(max_workers=min(16, max(1, len(keys) + sum(len(n) for _, n in getattr(pm, 'SUBCHECKS', []))))) as ex:
+    with cf.ProcessPoolExecutor(max_workers=min(16, os.cpu_count() or 4, max(1, len(keys) + sum(len(n) for _, n in getattr(pm, 'SUBCHECKS', []))))) as ex:
         futs = [ex.submit(verify_target, (prop_mod, k, timeout_ms, 6)) for k in keys]
         # sub-checks: (props-like module, [contract class names]) verified under their own contract registry
         for sub_mod, names in getattr(pm, "SUBCHECKS", []):
@@ -220,12 +225,21 @@ def finish(pm, pid, tier, seed, results, extra, contracts, wall):
     # ---- classification -------------------------------------------------------------
     violations, undecided = [], []
     anchors = baseline.get("families", {})
+    base_hashes = baseline.get("hashes", {})
+    cur_hashes = {r["name"]: {"sha": r.get("sha"), "inlined": r.get("inlined") or {}} for r in results if r.get("name") and not r.get("error")}
+    LAST_HASHES[pid] = cur_hashes
     for name, f in fam.items():
         if f["bad"]:
             rec = {"family": name, "function": f["function"], "bad": f["bad"]}
-            if name in anchors:
+            same_source = f["function"] in base_hashes and base_hashes[f["function"]] == cur_hashes.get(f["function"])
+            only_budget = all(b["verdict"] in ("undecided", "skipped") for b in f["bad"])
+            if name in anchors and not (same_source and only_budget):
                 violations.append(rec)          # passed on the unchanged tree, fails now
             else:
+                # new obligation family, or: the solvers ran out of budget on a function whose source (and inlined callees) is
+                # byte-for-byte what the baseline was written from - undecided, never a violation
+                if name in anchors:
+                    rec["note"] = "solver budget exhausted; source of %s unchanged since the baseline" % f["function"]
                 undecided.append(rec)
     missing = [a for a in anchors if a not in fam]
     # functions that left the subset / disappeared: their baseline families are undecided, stand-in decides
@@ -387,10 +401,13 @@ def make_replay(pm, pid, v, standin):
     return path, False
 
 
+LAST_HASHES = {}
+
+
 def write_baseline(pid, fam):
     p = os.path.join(VERIF, "obligations.baseline.json")
     data = json.load(open(p)) if os.path.exists(p) else {}
-    data[pid] = {"families": {k: v["function"] for k, v in sorted(fam.items()) if not v["bad"]}}
+    data[pid] = {"families": {k: v["function"] for k, v in sorted(fam.items()) if not v["bad"]}, "hashes": LAST_HASHES.get(pid, {})}
     json.dump(data, open(p, "w"), indent=1, sort_keys=True)
 
 
